@@ -31,12 +31,39 @@ def layout_kind(name):
     raise ValueError(name)
 
 
-def field_values(lay, i):
+STR_MODES = ["normal", "wm1", "full_all", "full_rot", "mixed"]
+_FILL = "_" + "abcdefghijklmnopqrstuvwxyz" * 12
+
+
+def pad_to(s, n):
+    return s[:n] if len(s) >= n else s + _FILL[:n - len(s)]
+
+
+def cstr_mode(lay, i, j, strmode):
+    """how C-string field number j of record i is filled: 'normal' (short, NUL terminated),
+    'wm1' (width-1 bytes then one NUL), 'full' (the whole width, no terminating NUL)"""
+    if strmode in (None, "normal"):
+        return "normal"
+    if strmode == "wm1":
+        return "wm1"
+    if strmode == "full_all":
+        return "full"
+    ncstr = sum(1 for f in lay["fields"] if f["kind"] == "c")
+    if strmode == "full_rot":            # one field of each record is full, the field rotates
+        return "full" if (i % ncstr) == j else "normal"
+    if strmode == "mixed":
+        return ("normal", "wm1", "full")[(i * 7 + j * 3 + 1) % 3]
+    raise ValueError(strmode)
+
+
+def field_values(lay, i, strmode=None):
     """values written into record number i (a record's own, distinguishable values)"""
     v = {}
+    j = -1
     for f in lay["fields"]:
         lab, kind, size = f["label"], f["kind"], f["size"]
         if kind == "c":
+            j += 1
             if "line" in lab:
                 s = "pts/%d" % i
             elif lab in ("ut_user", "ut_name"):
@@ -49,7 +76,8 @@ def field_values(lay, i):
                 s = "cmd%d" % i
             else:
                 s = "x%d" % i
-            v[lab] = s[:size - 1]
+            m = cstr_mode(lay, i, j, strmode)
+            v[lab] = s[:size - 1] if m == "normal" else pad_to(s, size - 1 if m == "wm1" else size)
         elif kind in ("i", "u"):
             if lab == "ut_type":
                 v[lab] = 7
@@ -58,7 +86,9 @@ def field_values(lay, i):
             elif lab == "ac_ppid":
                 v[lab] = 1
             elif lab == "ut_session":
-                v[lab] = i % 50
+                v[lab] = 1 + i % 50
+            elif lab in ("e_termination", "e_exit", "ut_exit"):
+                v[lab] = 0x4545 + i % 3          # non-zero bytes right after ut_host
             elif lab == "ac_flag":
                 v[lab] = 1
             elif lab == "ac_version":
@@ -74,16 +104,26 @@ def put_int(buf, off, size, val, signed):
     buf[off:off + size] = int(val).to_bytes(size, "little", signed=signed)
 
 
-def make_record(lay, i, tv, null_kind=None):
-    """tv = (sec, usec).  null_kind: None | 'zero' (all bytes zero) | 'zerotime' (fields set, time 0)"""
+def invalid_tv(lay):
+    """the time value an all-0xFF entry decodes to"""
+    sec = -1 if lay["sec_signed"] else (1 << (8 * lay["sec_len"])) - 1
+    return (sec, -1 if lay["usec_len"] else 0)
+
+
+def make_record(lay, i, tv, null_kind=None, strmode=None):
+    """tv = (sec, usec).  null_kind: None | 'zero' (all bytes zero) | 'zerotime' (fields set, time 0)
+    | 'ff' (all bytes 0xFF: an invalid entry)"""
     buf = bytearray(lay["size"])
     if null_kind == "zero":
         return bytes(buf)
-    vals = field_values(lay, i)
+    if null_kind == "ff":
+        return b"\xff" * lay["size"]
+    vals = field_values(lay, i, strmode)
     for f in lay["fields"]:
         lab, kind, off, size = f["label"], f["kind"], f["offset"], f["size"]
         if kind == "c":
             b = vals[lab].encode()
+            assert len(b) <= size
             buf[off:off + len(b)] = b
         elif kind in ("i", "u"):
             put_int(buf, off, size, vals[lab], kind == "i")
@@ -95,9 +135,10 @@ def make_record(lay, i, tv, null_kind=None):
     return bytes(buf)
 
 
-def expected_patterns(lay, i, tv):
-    """regexes that the printed line of record i must match (that record's own values)"""
-    vals = field_values(lay, i)
+def expected_patterns(lay, i, tv, strmode=None):
+    """regexes that the printed line of record i must match (that record's own values and, for a
+    C string, exactly the field's bytes up to its width: the closing quote must follow)"""
+    vals = field_values(lay, i, strmode)
     pats = []
     for f in lay["fields"]:
         lab, kind = f["label"], f["kind"]
@@ -128,13 +169,13 @@ def marker_field(lay):
 
 def marker_index(lay, line):
     lab = marker_field(lay)
-    m = re.search(r"(?:^|[ '])%s '?(?:pts/|cmd)(\d+)'" % re.escape(lab), line)
+    m = re.search(r"(?:^|[ '])%s '?(?:pts/|cmd)(\d+)(?![0-9])" % re.escape(lab), line)
     return int(m.group(1)) if m else None
 
 
-def build_file(lay, recs):
+def build_file(lay, recs, strmode=None):
     """recs: list of (tv, null_kind)"""
-    return b"".join(make_record(lay, i, tv, nk) for i, (tv, nk) in enumerate(recs))
+    return b"".join(make_record(lay, i, tv, nk, strmode) for i, (tv, nk) in enumerate(recs))
 
 
 def container(data, name, how):
